@@ -261,7 +261,6 @@ func timeSinks(c *Ctx, m *ttModel, v ssa.Value, seen map[ssa.Value]bool, out *[]
 	}
 }
 
-
 // ruleClock: every clock read that flows into a start time or a duration is made under the collector mutex.
 func ruleClock(c *Ctx, m *ttModel, rule string) {
 	p, l := c.P, c.L()
